@@ -65,9 +65,9 @@ PROPS["C11"] = {
         {"name": "parse_region_info", "pkg": "region", "entry": "VerifParseRegionInfo", "stubs": RECV_STUBS, "reach": ["parsed"],
          "params": {"quick": {}, "thorough": {}}},
         {"name": "receive_multi_dispatch", "pkg": "region", "entry": "VerifReceiveMulti", "stubs": RECV_STUBS, "reach": ["answered", "left-registered"],
-         "params": {"quick": {"CELLS": 0, "N": 0, "R": 2, "A": 1, "MAXCELLS": 1}, "thorough": {"CELLS": 0, "N": 0, "R": 2, "A": 2, "MAXCELLS": 1}}},
+         "params": {"quick": {"CELLS": 0, "N": 0, "R": 2, "A": 1, "MAXCELLS": 1, "CALLS3": 1}, "thorough": {"CELLS": 0, "N": 0, "R": 2, "A": 2, "MAXCELLS": 1, "CALLS3": 1}}},
         {"name": "receive_multi_cells", "pkg": "region", "entry": "VerifReceiveMulti", "stubs": RECV_STUBS, "reach": ["answered", "left-registered"],
-         "params": {"quick": {"CELLS": 1, "N": 26, "R": 0, "A": 0, "MAXCELLS": 1}, "thorough": {"CELLS": 1, "N": 52, "R": 0, "A": 0, "MAXCELLS": 2}}},
+         "params": {"quick": {"CELLS": 1, "N": 26, "R": 0, "A": 0, "MAXCELLS": 1, "CALLS3": 0}, "thorough": {"CELLS": 1, "N": 52, "R": 0, "A": 0, "MAXCELLS": 2, "CALLS3": 1}}},
     ],
 }
 
